@@ -388,6 +388,9 @@ def merge_render_with_diff3(b, l, r, strategy=None):
         return r, 0
     elif strategy is not None:
         warning("Using diff3 but ignoring strategy %s", strategy)
+    if not all(t.endswith('\n') for t in (b, l, r)):
+        # diff3 appends its markers to an unterminated last line
+        return builtin_merge_render(b, l, r, strategy)
     merged, status = external_merge_render(cmd.split(), b, l, r)
     return merged, status
 
